@@ -27,8 +27,12 @@ KW_NAMES = [b'endx', b'do_it', b'iffy', b'nots', b'android', b'forx', b'inn', b'
             # identifiers that differ from a reserved word only in case (Lua is case-sensitive)
             b'End', b'IF', b'Not', b'OR', b'In', b'Do', b'True', b'Nil', b'Function', b'THEN', b'Else',
             # identifiers that are words of the cart file format and of picotool's own directives
-            b'include', b'version', b'pico', b'cartridge', b'lua', b'gfx', b'label']
-GLYPH_NAMES = [b'\x80', b'\x8e\x97', b'x\x99', b'\xe3\x81', b'a\x80b', b'\xff\xfe', b'_\x85']
+            b'include', b'version', b'pico', b'cartridge', b'lua', b'gfx', b'label',
+            # names that mean something to Lua's runtime, not to its grammar
+            b'_ENV', b'_G', b'self', b'arg']
+GLYPH_NAMES = [b'\x80', b'\x8e\x97', b'x\x99', b'\xe3\x81', b'a\x80b', b'\xff\xfe', b'_\x85',
+               # a reserved word directly followed by a glyph is one name
+               b'in\x8b', b'end\x97', b'or\xff', b'do\x8e', b'if\x80', b'not\x94']
 BUILTIN_NAMES = [b'print', b'spr', b'btn', b'rnd', b'flr', b'add', b'del', b'sin', b'cos', b'mid', b'_init', b'_update',
                  b'_draw', b'sfx', b'pset', b'max', b'min', b'abs', b'cls', b'map']
 SHORT_NAMES = [b'a', b'b', b'c', b'ba', b'bb', b'z', b'aa']
